@@ -408,6 +408,17 @@ def _run(plan, ctx):
                                 sig="unavailable_price_not_rejected")
             raise StopRun()
         target = dict(sizer_calls[-1]["result"]) if len(sizer_calls) > n_s and sizer_calls[-1]["result"] is not None else None
+        if target is None and len(sizer_calls) == n_s:
+            # the construction model did not consult the sizer: the configured sizer's own target for the full
+            # weight vector is still what the orders must reach (nothing has been submitted yet)
+            ctx.probe("construction_model_bypassed_the_sizer")
+            full = dict((a, 0.0) for a in sorted(wanted_assets))
+            full.update(_opt_ref(cfg, weights))
+            try:
+                out_ = sizer(ts(t), full) if full else {}
+                target = dict((a, v["quantity"]) for a, v in out_.items())
+            except Exception:
+                target = None
         if ctx.judging("C09"):
             if target is None:
                 ctx.violate("C09", "rebalance_without_sizing", {"t": iso(t)})
